@@ -157,7 +157,9 @@ def obligations(prop, extra_targets=()):
 
 def leanchecker(prop):
     with Lock():
-        rc, out = run(["lake", "env", "leanchecker", f"FormulaeModel.Properties.{prop}"], cwd=LEAN,
+        mods = [f"FormulaeModel.Properties.{prop}"] + (
+            ["FormulaeModel.Properties.Bridge"] if prop in ("C04", "C13") else [])
+        rc, out = run(["lake", "env", "leanchecker"] + mods, cwd=LEAN,
                       timeout=3000)
     return rc == 0, out[-2000:]
 
